@@ -6,7 +6,7 @@ From RN Require Import Base.Res Codec.Varint Codec.BufReader
   RaftLog.ReadProofs RaftLog.WriteProofs RaftLog.InitProofs RaftLog.StripProofs RaftLog.Refine
   RaftLog.LogManager RaftLog.ManagerProofs RaftLog.ManagerInv RaftLog.ManagerWriteProofs
   RaftLog.ManagerBatchProofs RaftLog.ManagerCutProofs RaftLog.ManagerReopenProofs
-  RaftLog.ManagerSpec.
+  RaftLog.ManagerPointerProofs RaftLog.ManagerSpec.
 From Coq Require Import ZifyBool ZifyNat ZifyN.
 Local Open Scope N_scope.
 Ltac Zify.zify_post_hook ::= Z.div_mod_to_equations.
@@ -221,4 +221,213 @@ Section Steps.
              subst xs. cbn [firstn log_app a_first a_ents] in *. split; [exact Hf|]. rewrite Hv. reflexivity.
         * contradiction.
   Qed.
+  (** pointer steps *)
+  Lemma compact_ents a (vis0 : list lrec) ptr :
+    indexed (a_first a) vis0 -> a_ents a = map ent_of vis0 -> a_first a <= r_index ptr + 1 ->
+    a_ents (a_compact a ptr) = map ent_of (ptr :: above (r_index ptr) vis0).
+  Proof.
+    intros Hi He Hle. unfold a_compact. cbn [a_ents map]. f_equal.
+    rewrite (above_indexed vis0 (a_first a) (r_index ptr) Hi Hle), He, skipn_map. reflexivity.
+  Qed.
+
+  Lemma save_pointer_step (m0 : mgr) ptr pend :
+    MRep m0 (mkMst (ms_log st) (ms_floor st) pend) ->
+    match ms_log st with Some a => ptr_in a (ms_floor st) ptr | None => rec_in ptr end ->
+    MRep (mgr_save_pointer m0 ptr) (install_ptr st ptr pend).
+  Proof.
+    intros (fs & R & Hfl & Hp & Hlog) Hok. cbn [ms_log ms_floor ms_pend] in *.
+    unfold install_ptr. destruct (ms_log st) as [a|] eqn:El.
+    - destruct Hlog as [Hfirst Hents]. destruct (rep_indexed m0 fs _ R Hfirst) as [Hidx Hend].
+      destruct Hok as (Hrok & Hrne & Hrange & Hflp).
+      assert (Haend : a_end a = a_first a + nlen (files_vis fs)).
+      { unfold a_end, a_len. rewrite Hents, map_length. reflexivity. }
+      assert (Hpok : ptr_ok fs ptr).
+      { split; [exact Hrok|]. split; [exact Hrne|]. exists (a_first a), (a_end a).
+        split; [exact Hfirst|]. split; [rewrite Haend; exact Hend|exact Hrange]. }
+      destruct (mgr_save_pointer_rep_floor m0 fs ptr R Hpok (floor_ptr_head_ok _ fs ptr Hfl Hflp))
+        as (fs' & R' & Hl' & Hp' & Hv & Hf & He & Hflo).
+      exists fs'. cbn [ms_log ms_floor ms_pend]. split; [exact R'|]. split; [apply Hflo; exact Hfl|].
+      split; [congruence|]. split; [exact Hf|]. rewrite Hv. apply compact_ents; [exact Hidx|exact Hents|lia].
+    - subst fs. destruct Hok as (Hrok & Hrne & Hb).
+      destruct (mgr_save_pointer_empty_floor m0 ptr R Hrok Hrne Hb) as (fs' & R' & Hl' & Hp' & Hv & Hf & He & Hfl0).
+      exists fs'. cbn [ms_log ms_floor ms_pend]. split; [exact R'|].
+      split; [apply (floor_ok_mono 0); [lia|exact Hfl0]|]. split; [congruence|].
+      cbn [a_first a_ents]. split; [exact Hf|]. rewrite Hv. reflexivity.
+  Qed.
+
+  Lemma MRep_eta : MRep m (mkMst (ms_log st) (ms_floor st) (ms_pend st)).
+  Proof. rewrite <- mst_eta. exact HR. Qed.
+
+  Lemma step_pointer ptr :
+    match ms_log st with Some a => ptr_in a (ms_floor st) ptr | None => rec_in ptr end ->
+    let '(m', out) := mstep m (OPointer ptr) in exists st', mspec st (OPointer ptr) out st' /\ MRep m' st'.
+  Proof.
+    intros Hok. cbn [mstep mspec]. eexists. split; [reflexivity|].
+    apply save_pointer_step; [exact MRep_eta|exact Hok].
+  Qed.
+
+  Lemma step_install_all ptr : rec_in ptr ->
+    let '(m', out) := mstep m (OInstallAll ptr) in exists st', mspec st (OInstallAll ptr) out st' /\ MRep m' st'.
+  Proof.
+    intros (Hrok & Hrne & Hb). destruct HR as (fs & R & Hfl & Hp & Hlog). cbn [mstep mspec].
+    eexists. split; [reflexivity|].
+    destruct (mgr_split_all_rep m fs R) as (R1 & Hl1 & Hp1).
+    destruct (mgr_save_pointer_empty_floor _ ptr R1 Hrok Hrne Hb) as (fs' & R' & Hl' & Hp' & Hv & Hf & He & Hfl0).
+    exists fs'. cbn [ms_log ms_floor ms_pend]. split; [exact R'|].
+    split; [apply (floor_ok_mono 0); [lia|exact Hfl0]|]. split; [congruence|].
+    cbn [a_first a_ents]. split; [exact Hf|]. rewrite Hv. reflexivity.
+  Qed.
+
+  Lemma step_build ptr :
+    match ms_pend st, ms_log st with
+    | Some prev, Some a => ptr_in a (ms_floor st) prev
+    | Some prev, None => rec_in prev
+    | None, _ => True
+    end ->
+    let '(m', out) := mstep m (OBuild ptr) in exists st', mspec st (OBuild ptr) out st' /\ MRep m' st'.
+  Proof.
+    intros Hok. cbn [mstep mspec]. eexists. split; [reflexivity|].
+    destruct HR as (fs & R & Hfl & Hp & Hlog).
+    destruct (ms_pend st) as [prev|] eqn:Epend.
+    - (* the remembered pointer is installed, the new one remembered *)
+      unfold mgr_build_pointer. rewrite Hp.
+      apply (save_pointer_step _ prev (Some ptr)).
+      + exists fs. cbn [ms_log ms_floor ms_pend m_pre_ptr]. split; [apply rep_set_pre; exact R|].
+        split; [exact Hfl|]. split; [reflexivity|exact Hlog].
+      + destruct (ms_log st); exact Hok.
+    - destruct (mgr_build_pointer_none m fs ptr R Hp) as (R' & Hp' & Hl').
+      exists fs. cbn [ms_log ms_floor ms_pend]. split; [exact R'|]. split; [exact Hfl|]. split; [exact Hp'|exact Hlog].
+  Qed.
 End Steps.
+
+(** * the simulation *)
+Theorem mstep_refines m st op :
+  MRep m st -> mop_ok st op ->
+  let '(m', out) := mstep m op in exists st', mspec st op out st' /\ MRep m' st'.
+Proof.
+  intros HR Hok. destruct op; cbn [mop_ok] in Hok.
+  - apply step_append; assumption.
+  - apply step_batch; assumption.
+  - destruct Hok as (H1 & H2 & H3). apply step_truncate; assumption.
+  - apply step_query; assumption.
+  - apply step_last; assumption.
+  - apply step_pointer; assumption.
+  - apply step_install_all; assumption.
+  - apply step_build; assumption.
+  - apply step_reopen; assumption.
+Qed.
+
+(** histories: the abstract states are threaded through the specification relation *)
+Fixpoint mspecs (st : mstate) (ops : list mop) (outs : list mout) (st' : mstate) : Prop :=
+  match ops, outs with
+  | [], [] => st' = st
+  | op :: ops', o :: outs' => exists st1, mspec st op o st1 /\ mspecs st1 ops' outs' st'
+  | _, _ => False
+  end.
+
+(** inputs in scope along a history (scope depends on the abstract state reached so far) *)
+Fixpoint mops_ok (st : mstate) (ops : list mop) (outs : list mout) : Prop :=
+  match ops, outs with
+  | op :: ops', o :: outs' =>
+      mop_ok st op /\ forall st1, mspec st op o st1 -> mops_ok st1 ops' outs'
+  | _, _ => True
+  end.
+
+Theorem mgr_refines_alog : forall ops m st,
+  MRep m st ->
+  let '(m', outs) := mrun m ops in
+  mops_ok st ops outs -> exists st', mspecs st ops outs st' /\ MRep m' st'.
+Proof.
+  induction ops as [|op ops IH]; intros m st HR; cbn [mrun].
+  - intros _. exists st. split; [reflexivity|exact HR].
+  - destruct (mstep m op) as [m1 o] eqn:E1.
+    specialize (IH m1).
+    destruct (mrun m1 ops) as [m2 os] eqn:E2.
+    cbn [mops_ok]. intros [Hok Hrest].
+    pose proof (mstep_refines m st op HR Hok) as Hs. rewrite E1 in Hs.
+    destruct Hs as (st1 & Hsp & HR1).
+    specialize (IH st1 HR1).
+    destruct (IH (Hrest st1 Hsp)) as (st' & Hss & HR').
+    exists st'. split; [|exact HR']. cbn [mspecs]. exists st1. split; assumption.
+Qed.
+
+(** the empty manager represents "nothing written yet" *)
+Lemma MRep_init limit : HDR_LEN + 10 < limit <= 4096 -> MRep (mgr_init limit) (mkMst None 0 None).
+Proof.
+  intros Hl. exists []. split.
+  - constructor; cbn; auto. split; exact I.
+  - split; [split; [constructor|exact I]|]. split; reflexivity.
+Qed.
+
+(** * corollaries for Props *)
+(** C02: after ANY history, stop + start + query returns exactly the abstract log (acknowledged and
+    not removed entries) in the interval - whatever the number of files *)
+Theorem reopen_returns_exactly_acked_multi_file : forall ops m st lo hi,
+  MRep m st -> lo < U64MAX ->
+  let '(m1, outs) := mrun m ops in
+  mops_ok st ops outs ->
+  exists st1, mspecs st ops outs st1 /\
+    let '(m2, o2) := mstep m1 OReopen in
+    let '(m3, o3) := mstep m2 (OQuery lo hi) in
+    o2 = MDone /\ exists l, o3 = MRecs l /\
+      map to_ent l = match ms_log st1 with Some a => a_get a lo hi | None => [] end.
+Proof.
+  intros ops m st lo hi HR Hlo.
+  pose proof (mgr_refines_alog ops m st HR) as H.
+  destruct (mrun m ops) as [m1 outs]. intros Hok. destruct (H Hok) as (st1 & Hss & HR1).
+  exists st1. split; [exact Hss|].
+  pose proof (mstep_refines m1 st1 OReopen HR1 I) as H2.
+  destruct (mstep m1 OReopen) as [m2 o2]. destruct H2 as (st2 & Hs2 & HR2).
+  destruct o2; cbn [mspec] in Hs2; try contradiction. subst st2.
+  pose proof (mstep_refines m2 _ (OQuery lo hi) HR2 Hlo) as H3.
+  destruct (mstep m2 (OQuery lo hi)) as [m3 o3]. destruct H3 as (st3 & Hs3 & HR3).
+  destruct o3; cbn [mspec] in Hs3; try contradiction. destruct Hs3 as [Hq _]. cbn [ms_log] in Hq.
+  split; [reflexivity|]. exists l. split; [reflexivity|exact Hq].
+Qed.
+
+(** C03: delete-from k leaves exactly the abstract prefix below k, across files *)
+Theorem truncate_exact_multi_file : forall m st k,
+  MRep m st -> mop_ok st (OTruncate k) ->
+  let '(m', out) := mstep m (OTruncate k) in
+  out = MAck true /\
+  MRep m' (mkMst (match ms_log st with Some a => Some (a_truncate a k) | None => None end)
+                 (ms_floor st) (ms_pend st)).
+Proof.
+  intros m st k HR Hok. pose proof (mstep_refines m st (OTruncate k) HR Hok) as H.
+  cbn [mstep] in *. destruct H as (st' & Hs & HR'). cbn [mspec] in Hs. subst st'. split; [reflexivity|exact HR'].
+Qed.
+
+(** C03: after delete-from k (k inside the log) the append at k is acknowledged *)
+Theorem append_after_truncate_accepted_multi_file : forall m st a k x,
+  MRep m st -> ms_log st = Some a -> mop_ok st (OTruncate k) -> k < a_end a ->
+  rec_in x -> r_index x = k ->
+  let '(m1, _) := mstep m (OTruncate k) in
+  let '(m2, o2) := mstep m1 (OAppend x) in
+  o2 = MAck true.
+Proof.
+  intros m st a k x HR Ha Hok Hk Hx Hidx.
+  pose proof (truncate_exact_multi_file m st k HR Hok) as H.
+  change (mstep m (OTruncate k)) with (mgr_strip m k, MAck true) in *. cbv beta iota in *.
+  destruct H as [_ HR1]. rewrite Ha in HR1.
+  pose proof (mstep_refines _ _ (OAppend x) HR1 Hx) as H2.
+  destruct (mstep (mgr_strip m k) (OAppend x)) as [m2 o2]. destruct H2 as (st2 & Hs2 & _).
+  destruct o2; cbn [mspec ms_log] in Hs2; try contradiction.
+  destruct ok; [reflexivity|]. exfalso. destruct Hs2 as [(a' & Ha' & Hne) _]. inversion Ha'; subst a'.
+  apply Hne. rewrite Hidx. cbn [mop_ok] in Hok. rewrite Ha in Hok. destruct Hok as (_ & _ & Hfk).
+  unfold a_truncate. destruct (a_end a <=? k) eqn:E; [lia|].
+  unfold a_end, a_len. cbn [a_first a_ents]. rewrite firstn_length.
+  unfold a_end, a_len in Hk. lia.
+Qed.
+
+(** C02: a query returns exactly the abstract log's entries in the interval *)
+Theorem manager_query : forall m st lo hi,
+  MRep m st -> lo < U64MAX ->
+  let '(m', out) := mstep m (OQuery lo hi) in
+  MRep m' st /\ exists l, out = MRecs l /\
+    map to_ent l = match ms_log st with Some a => a_get a lo hi | None => [] end.
+Proof.
+  intros m st lo hi HR Hlo. pose proof (mstep_refines m st (OQuery lo hi) HR Hlo) as H.
+  destruct (mstep m (OQuery lo hi)) as [m' out]. destruct H as (st' & Hs & HR').
+  destruct out; cbn [mspec] in Hs; try contradiction. destruct Hs as [Hq ->].
+  split; [exact HR'|]. exists l. auto.
+Qed.
